@@ -144,30 +144,36 @@ func (g *gen) params(names []string) []funcs.Param {
 func (g *gen) genC15() {
 	schemes := []string{"named", "blankall", "blankmix", "unnamed", "f0", "flast", "fmid", "prefixed", "prefixblank", "gennames", "blankf"}
 	idx := 0
-	for _, s := range schemes {
-		for n := 2; n <= 5; n++ {
-			names := naming(s, n)
-			if names == nil {
-				continue
-			}
-			var rcs []int
-			if *thorough {
-				rcs = []int{0, 1, 2, 3}
-			} else {
-				rcs = []int{idx % 4, 1 + (idx+1)%3}
-				if rcs[0] == rcs[1] {
-					rcs = rcs[:1]
+	reps := 1
+	if *thorough {
+		reps = 2 // two independent draws of the parameter and result types per (scheme, arity, result count)
+	}
+	for rep := 0; rep < reps; rep++ {
+		for _, s := range schemes {
+			for n := 2; n <= 5; n++ {
+				names := naming(s, n)
+				if names == nil {
+					continue
 				}
-			}
-			idx++
-			for _, rc := range rcs {
-				ps := g.params(names)
-				rs := g.types(rc, false)
-				for _, kind := range []string{"curry", "flip", "apply", "uncurrycurry"} {
-					g.add(&funcs.Class{Prop: "C15", Kind: kind, Tag: s, Ps: ps, Rs: rs})
+				var rcs []int
+				if *thorough {
+					rcs = []int{0, 1, 2, 3}
+				} else {
+					rcs = []int{idx % 4, 1 + (idx+1)%3}
+					if rcs[0] == rcs[1] {
+						rcs = rcs[:1]
+					}
 				}
-				g.stats[fmt.Sprintf("arity:%d", n)]++
-				g.stats[fmt.Sprintf("results:%d", rc)]++
+				idx++
+				for _, rc := range rcs {
+					ps := g.params(names)
+					rs := g.types(rc, false)
+					for _, kind := range []string{"curry", "flip", "apply", "uncurrycurry"} {
+						g.add(&funcs.Class{Prop: "C15", Kind: kind, Tag: s, Ps: ps, Rs: rs})
+					}
+					g.stats[fmt.Sprintf("arity:%d", n)]++
+					g.stats[fmt.Sprintf("results:%d", rc)]++
+				}
 			}
 		}
 	}
@@ -362,8 +368,8 @@ func main() {
 	id := 0
 	nops := map[string]int{}
 	type classInfo struct {
-		Pkg, Prop, Kind, Tag, Sig string
-		Ops                      int
+		Pkg, Prop, Kind, Tag, Sig, Go string
+		Ops                           int
 	}
 	var infos []classInfo
 	nargs := 4
@@ -383,7 +389,7 @@ func main() {
 			fmt.Fprintf(&ops, "op %d %s\n", id, l)
 			nops[c.Kind]++
 		}
-		infos = append(infos, classInfo{c.Pkg, c.Prop, c.Kind, c.Tag, c.SigWire(), len(lines)})
+		infos = append(infos, classInfo{c.Pkg, c.Prop, c.Kind, c.Tag, c.SigWire(), c.GoSig(), len(lines)})
 	}
 	write(filepath.Join(*out, "ops.txt"), ops.String())
 	write(filepath.Join(*out, "pkgs.txt"), strings.Join(pkgs, " ")+"\n")
